@@ -14,7 +14,7 @@ Print Assumptions C05_reachable_invariant.
 Theorem C05_fresh_ids : forall s o, reachable s -> forall x, In x (live (step_state s o)) ->
   (exists y, In y (live s) /\ tx_id y = tx_id x) \/
   (tx_id x = next_tx s /\ next_tx (step_state s o) = next_tx s + 1 /\ (forall y, In y (live s) -> tx_id y < tx_id x)
-   /\ exists sender dest amount fee token, o = Send sender dest amount fee token).
+   /\ exists sender dest amount fee token, is_send o sender dest amount fee token).
 Proof. intros s o R; apply fresh_ids, reachable_inv, R. Qed.
 Print Assumptions C05_fresh_ids.
 
@@ -69,7 +69,7 @@ From FxV Require Import proofs.P_C06 proofs.P_C06b proofs.P_C05ex.
 
 Theorem C05_payload_preserved : forall s o s' evs, reachable s -> accepted s o s' evs -> forall x', In x' (live s') ->
   In x' (live s) \/
-  (exists sender dest amount fee token, o = Send sender dest amount fee token /\ 0 < amount /\ 0 < fee /\
+  (exists sender dest amount fee token, is_send o sender dest amount fee token /\ 0 < amount /\ 0 <= fee /\
       x' = mk_tx (next_tx s) sender dest token amount fee /\ In x' (pool s')) \/
   (exists x who add token which, In x (pool s) /\ o = IncreaseFee (tx_id x) who add token which /\ 0 < add /\
       x' = with_fee x (tx_fee x + add) /\ In x' (pool s')).
@@ -92,12 +92,37 @@ Theorem C05_cancel_batch_restores : forall c s b s' evs, reachable s -> cancel_b
 Proof. intros c s b s' evs R; apply cancel_batch_restores, reachable_inv, R. Qed.
 Print Assumptions C05_cancel_batch_restores.
 
+(* refund of exactly amount + fee to the account that created the transfer, stated per origin: base coins in the bank for
+   MsgSendToExternal (and for FX sent from the EVM), ERC-20 tokens for a transfer started from the EVM with an ERC-20 token
+   (refund_component = 2 exactly when the erc20 outgoing relation exists); afterwards the relation is gone *)
 Theorem C05_refund_exact : forall s id who s' evs, reachable s -> 0 <= who -> accepted s (Cancel id who) s' evs ->
   exists x, In x (pool s) /\ tx_id x = id /\ tx_sender x = who /\
-    get_bal (bal s') (who, tx_token x, 0) = get_bal (bal s) (who, tx_token x, 0) + (tx_amount x + tx_fee x) /\
-    (forall k, user_key k -> k <> (who, tx_token x, 0) -> get_bal (bal s') k = get_bal (bal s) k).
+    get_bal (bal s') (who, tx_token x, refund_component s id) =
+    get_bal (bal s) (who, tx_token x, refund_component s id) + (tx_amount x + tx_fee x) /\
+    (forall k, user_key k -> k <> (who, tx_token x, refund_component s id) -> get_bal (bal s') k = get_bal (bal s) k) /\
+    ~ In id (relation s').
 Proof. intros s id who s' evs R; apply refund_exact, reachable_inv, R. Qed.
 Print Assumptions C05_refund_exact.
+
+(* the erc20 outgoing relation exists exactly for the live transfers that were started from the EVM with an ERC-20 token:
+   only for live ids; kept exactly while live; created only by such a send *)
+Theorem C05_relation_only_for_live_transfers : forall s, reachable s ->
+  (forall r, In r (relation s) -> is_live s r) /\ NoDup (relation s).
+Proof. intros s R; apply relation_only_live, reachable_inv, R. Qed.
+Print Assumptions C05_relation_only_for_live_transfers.
+
+Theorem C05_relation_kept_while_live_created_by_evm_erc20_send : forall s o s' evs, reachable s -> accepted s o s' evs -> forall r,
+  In r (relation s') <-> (In r (relation s) /\ is_live s' r) \/ (r = next_tx s /\ evm_erc20_send s o).
+Proof. intros s o s' evs R; apply relation_step, reachable_inv, R. Qed.
+Print Assumptions C05_relation_kept_while_live_created_by_evm_erc20_send.
+
+Theorem C05_relation_nonvacuous :
+  relation (run r_init (firstn 5 r_ops)) = [2; 1] /\
+  (let s := run r_init (firstn 6 r_ops) in relation s = [2] /\ get_bal (bal s) (0, 3, 2) = 1000 /\ get_bal (bal s) (0, 3, 0) = 5000 - 29) /\
+  (let s := run r_init (firstn 8 r_ops) in get_bal (bal s) (0, 3, 0) = 5000 /\ get_bal (bal s) (0, 0, 0) = 5000 /\ get_bal (bal s) (0, 3, 2) = 1000) /\
+  (let s := run r_init r_ops in relation s = [] /\ pool s = [] /\ batches s = [] /\ get_bal (bal s) (1, 3, 2) = 963).
+Proof. exact relation_example. Qed.
+Print Assumptions C05_relation_nonvacuous.
 
 Theorem C05_fee_exact : forall s id who add token which s' evs, reachable s -> 0 <= who ->
   accepted s (IncreaseFee id who add token which) s' evs ->
